@@ -132,6 +132,17 @@ def checkWmcLine (kvs : List (String × String)) (rhs : String) : String := Id.r
   if lookup okv "cxn" != some (showCx specCxN) then
     return s!"FAIL SPEC complex count of the negation {lookup okv "cxn"}, brute-force sum over models {showCx specCxN}"
   if showCx (Bdd.wmc Sem.cxOps wcW d) != showCx specCx then return "FAIL MODEL complex count"
+  -- expected-utility weights, normalised: low = (1 - k/8, -u), high = (k/8, u)
+  let weuS := ((lookup kvs "weu").getD "").splitOn ","
+  let weuW : Weights Sem.EU := fun v =>
+    match ((weuS.getD v "").splitOn ":").mapM String.toInt? with
+    | some [k, u] => (⟨1 - mkRat k 8, - (u : Rat)⟩, ⟨mkRat k 8, (u : Rat)⟩)
+    | _ => (⟨1, 0⟩, ⟨0, 0⟩)
+  let showEU (z : Sem.EU) : String := s!"{showRat z.p},{showRat z.u}"
+  for (key, f) in [("ce", d.eval), ("cen", fun a => !d.eval a)] do
+    let want := wsum Sem.euOps vars weuW f a0
+    if lookup okv key != some (showEU want) then
+      return s!"FAIL SPEC expected-utility count {key} = {lookup okv key}, brute-force sum over models {showEU want}"
   -- polynomial weights (1 - x^d, x^d) over the reals, truncated at MAX_COEFFS
   let M := Constants.maxCoeffs
   let wpd := ((lookup kvs "wpd").bind parseNatList).getD []
